@@ -772,8 +772,9 @@ def get_attr_external(interp, base, name, missing_ok=False):
                 return TupleV(list(base.args[1:]))
             if name == '__traceback__':
                 return T('attr', base, name)
-        if base.op == 'bytes' and name in ('startswith', 'decode', 'index',
-                                           'find', 'endswith', 'hex'):
+        if base.op == 'bytes' and (name in (
+                'startswith', 'decode', 'index', 'find', 'endswith', 'hex')
+                or name in PURE_STR_METHODS):
             return Method(base, name)
         attrs = interp.attrs.get(base)
         if attrs is not None and name in attrs:
@@ -995,6 +996,16 @@ def method_term(interp, base, name, args, kwargs):
     if bt is None and name in PURE_STR_METHODS and isinstance(tb, T) and \
             tb.op in ('item', 'sub', 'slice', 'group', 'elem', 'fmt',
                       'format', 'binop', 'mcall'):
+        if name in interp.method_raises:
+            saved = interp.call_raises.get('.' + name)
+            interp.call_raises['.' + name] = interp.method_raises[name]
+            try:
+                interp.may_raise('.' + name, t)
+            finally:
+                if saved is None:
+                    interp.call_raises.pop('.' + name, None)
+                else:
+                    interp.call_raises['.' + name] = saved
         return t
     if bt in ('str', 'bytes'):
         if name in STR_RET and not (bt == 'str' and name == 'decode'):
@@ -1731,6 +1742,28 @@ def b_dict_fromkeys(interp, args, kwargs):
     return d
 
 
+def b_closing(interp, args, kwargs):
+    """contextlib.closing(thing): enters as thing, leaves by thing.close()."""
+    if len(args) != 1:
+        return NotImplemented
+    thing = args[0]
+    o = Obj(None, {}, label='closing')
+    o.fields['__enter__'] = AbsFunc('__enter__', lambda i, a, k: thing)
+
+    def leave(i, a, k):
+        i.call(i.get_attr(thing, 'close'), [])
+        return K(None)
+    o.fields['__exit__'] = AbsFunc('__exit__', leave)
+    return o
+
+
+def b_object(interp, args, kwargs):
+    """object(): a fresh heap object (used as a unique sentinel)."""
+    if args or kwargs:
+        return NotImplemented
+    return Obj(None, {}, label='object')
+
+
 def b_operator_contains(interp, args, kwargs):
     if len(args) != 2:
         return NotImplemented
@@ -1806,6 +1839,7 @@ BUILTINS = {
     'operator.lt': b_operator('lt'), 'operator.le': b_operator('le'),
     'operator.eq': b_operator('eq'), 'operator.ne': b_operator('ne'),
     'operator.gt': b_operator('gt'), 'operator.ge': b_operator('ge'),
+    'contextlib.closing': b_closing, 'object': b_object,
     'operator.contains': b_operator_contains,
     'operator.not_': b_operator_not, 'operator.is_': b_operator_is(False),
     'operator.is_not': b_operator_is(True),
